@@ -44,7 +44,8 @@ def parseInt (s : Bytes) : Option Int :=
 def strIntUntil (t : UInt8) (bs : Bytes) : Res (Int × Bytes) :=
   match findByte t 21 bs with
   | .err e => .err e
-  | .ok none => .err .fatal                       -- d.Fatalf("decodeStrIntUntil: failed to find")
+  | .ok none => .err .fatal                       -- PeekFindByte yields -1/8 = 0 (so the `i == -1` test is dead code),
+                                                  -- s = "" and strconv.ParseInt("") fails: d.Fatalf("decodeStrIntUntil: %q: %s")
   | .ok (some i) =>
     match parseInt (bs.take i) with
     | none => .err .fatal                          -- d.Fatalf("decodeStrIntUntil: %q: %s")
